@@ -17,10 +17,10 @@ import (
 // inconsistent key, all types mixed, all keys equal, nested, already ascending, descending, runs of ties,
 // strings that are prefixes of each other).
 
-var sizedLensQuick = []int{0, 1, 2, 3, 11, 12, 13, 15, 16, 17, 31, 32, 33, 63, 64, 65, 127, 128, 129, 192, 256, 1000}
+var sizedLensQuick = []int{0, 1, 2, 3, 4, 5, 6, 7, 8, 9, 10, 11, 12, 13, 14, 15, 16, 17, 18, 19, 20, 21, 24, 25, 31, 32, 33, 63, 64, 65, 127, 128, 129, 192, 256, 1000}
 var sizedLensThorough = []int{255, 257, 511, 512, 513, 1024, 4095, 4096, 4097, 10000}
 
-const sizedPatterns = 23
+const sizedPatterns = 25
 const sizedForms = 16
 
 var sizedFnNames []string
@@ -123,6 +123,16 @@ func sizedArray(n, pattern int) []interface{} {
 				a[i] = float64(4503599627370496) // 2^52: the partial sums before it are far below the spacing of doubles there
 			} else if n >= 2 && i == n-1 {
 				a[i] = float64(-4503599627370496)
+			}
+		case 23: // the element type changes half-way (numbers, then strings)
+			a[i] = num
+			if i >= n/2 {
+				a[i] = str
+			}
+		case 24: // objects whose key type changes half-way
+			a[i] = map[string]interface{}{"k": num, "v": float64(i)}
+			if i >= (n+1)/2 {
+				a[i] = map[string]interface{}{"k": str, "v": float64(i)}
 			}
 		default: // descending keys with ties at the end
 			k := float64(n - i)
